@@ -182,6 +182,7 @@ where
 
         // Apply rewrites, then check hooks, then check limits, then check if saturated.
         let progress = apply_rewrites(&mut self.egraph, rewrites);
+        let after_rules = self.egraph.progress();
         result = result
             .and_then(|_| {
                 hooks
@@ -190,7 +191,8 @@ where
             })
             .and_then(|_| self.check_limits());
 
-        if !progress {
+        // the hooks have mutable access to the e-graph: what they changed is not saturated yet.
+        if !progress && self.egraph.progress() == after_rules {
             result = result.and_then(|_| Err(StopReason::Saturated));
         }
 
